@@ -22,7 +22,7 @@ TRUSTED = [
 ]
 HARNESSES = [{"pkg": "c13drill", "sub": "drill"}]
 MANIFEST = {
-    "text": "For the repaired manager actor (members stored, unusable names refused, terminated children forgotten, "
+    "text": "Faulty ability providers (a provider that panics on one invocation must not make the manager fail nor an unrelated pair be created again) are exercised by a monitors-only family of the harness; they are not part of the model. For the repaired manager actor (members stored, unusable names refused, terminated children forgotten, "
             "length-prefixed child names) Coq proves over all histories of lookups and child terminations: no request "
             "makes the manager fail, an ability that is not offered is answered with an error, all lookups of a pair "
             "between two terminations return one reference and one actor instance, an actor is created at most once "
